@@ -8,16 +8,36 @@
 * ``relation_case``: decide a tree value against a *defining relation* evaluated with the reference release at high
   precision (used where the consensus sources conflict).
 """
-import math, time, collections
+import math, time, collections, signal
 from fractions import Fraction
 from . import refmodel, gens as G
 from . import specfun as S
-from .specfun import Regime, Timeout, time_limit
+from .specfun import Regime, Timeout
 from .catalog import R, C, I, raw_rand, canon, raw_from_float
 
 PRECS_LIGHT = S.PRECS_LIGHT
 PRECS_HEAVY = S.PRECS_HEAVY
 PRECS_VHEAVY = [10, 15, 30, 53, 64, 100]
+
+
+def _prof_alarm(signum, frame):
+    raise Timeout()
+
+
+class time_limit(object):
+    """CPU-time limit (ITIMER_PROF: user+system time of this process), so that a loaded machine does not turn slow
+    wall-clock progress into spurious timeouts; raises specfun.Timeout (a BaseException)"""
+    def __init__(self, seconds):
+        self.s = seconds
+
+    def __enter__(self):
+        self.old = signal.signal(signal.SIGPROF, _prof_alarm)
+        signal.setitimer(signal.ITIMER_PROF, self.s)
+
+    def __exit__(self, *a):
+        signal.setitimer(signal.ITIMER_PROF, 0)
+        signal.signal(signal.SIGPROF, self.old)
+        return False
 
 
 class Custom(object):
@@ -369,32 +389,45 @@ def evaluate_case_x(tree_mp, prop, fname, reg, specs, p, rec, tol_exp=8, tmax=20
 
 # ---- runner -----------------------------------------------------------------------------------
 
+def ordered_cells(table):
+    """cells in a fixed, seed-independent order: regime rank first, function name second, so that the first pass of every
+    shard visits all functions"""
+    cells = []
+    names = sorted(table)
+    for j in range(max(len(v) for v in table.values())):
+        for fname in names:
+            if j < len(table[fname]):
+                rg = table[fname][j]
+                cells.extend([(fname, rg)] * rg.weight)
+    return cells
+
+
 def run(prop, table, shard, rec, n_cases, tol_exp=8, tmax=10.0, bits_choices=(53, 53, 20, 100)):
+    """budget_s of the shard is CPU time of the worker (wall clock only as a safety net: 8 x budget)"""
     import mpmath
     tree_mp = mpmath.mp
     r = G.rng(prop, shard['seed'], shard['shard'])
-    cells = []
-    for fname in sorted(table):
-        for rg in table[fname]:
-            cells.extend([(fname, rg)] * rg.weight)
+    cells = ordered_cells(table)
     nsh = shard.get('nshards', 16)
     mine = [c for i, c in enumerate(cells) if i % nsh == shard['shard'] % nsh]
     if not mine:
         mine = cells
     counts = collections.Counter()
     quick = shard.get('tier') == 'quick'
-    t_end = time.time() + shard.get('budget_s', 1e9)
+    budget = shard.get('budget_s', 1e9)
+    c_end = time.process_time() + budget
+    w_end = time.time() + 8 * budget
     i = 0
-    while i < n_cases and time.time() < t_end:
+    while i < n_cases and time.process_time() < c_end and time.time() < w_end:
         fname, rg = mine[i % len(mine)]
         precs = rg.precs or (PRECS_HEAVY if rg.heavy else PRECS_LIGHT)
         if quick:
-            precs = [q for q in precs if q <= (200 if rg.heavy else 400)] or precs[:1]
+            precs = [q for q in precs if q <= (64 if rg.heavy else 200)] or precs[:1]
         p = precs[(i // len(mine) + r.randrange(len(precs))) % len(precs)]
         bits = min(r.choice(bits_choices), max(p, 4)) if r.random() < 0.8 else r.choice([2 * p, p + 7])
         bits = max(2, bits)
         tm = getattr(rg, 'tmax', None) or tmax
-        t0 = time.time()
+        t0 = time.process_time()
         try:
             if isinstance(rg, Custom):
                 try:
@@ -416,8 +449,8 @@ def run(prop, table, shard, rec, n_cases, tol_exp=8, tmax=10.0, bits_choices=(53
             rec.case((fname, rg.label, 'harness-error', i, shard['shard']), False, '%s/%s' % (fname, rg.label))
             rec.undecided('harness-error:%s' % type(e).__name__, {'function': fname, 'regime': rg.label, 'prec': p})
             v = 'undecided'
-        dt = time.time() - t0
-        rec.maximum('seconds/%s' % fname, round(dt, 2), {'regime': rg.label, 'prec': p})
+        dt = time.process_time() - t0
+        rec.maximum('cpu_seconds/%s' % fname, round(dt, 2), {'regime': rg.label, 'prec': p})
         counts[v] += 1
         rec.event('evals:%s' % fname)
         if v == 'undecided':
@@ -427,6 +460,7 @@ def run(prop, table, shard, rec, n_cases, tol_exp=8, tmax=10.0, bits_choices=(53
     for k, v in counts.items():
         rec.event('verdict:' + k, v)
     rec.event('reference evaluations', sum(counts.values()))
+    rec.note('shard-cpu-seconds', round(time.process_time(), 1), cap=40)
 
 
 def required(table, min_per_function=1):
